@@ -73,8 +73,52 @@ def check(ctx, prog, stats):
     stats["programs"] += 1
 
 
+def check_other(ctx, prog, stats):
+    """call_next with an argument of another class (possibly a type tuple the table has never resolved): the walk is
+    compared with the model, and -- property oracle -- when the caller is not applicable to the new arguments the
+    result must be that of a fresh call with them"""
+    w = world_from(prog["spec"])
+    defs = [dict(d) for d in prog["defs"]]
+    for d in defs:
+        d["body"] = ctx.rng.choice(["nexto", "nexto", "ret", "next"])
+    b = progs.Built(w, defs)
+    mms = R.model_defs(defs)
+    byid = {d["id"]: d for d in defs}
+    henc = w.encode()
+
+    def delegates(d):
+        return d.get("body") in ("next", "nexto") and d["npos_req"] == len(d["pos"]) and not d.get("kw")
+    for call in prog["calls"]:
+        if call["kw"]:
+            continue
+        pos = [w.instance(c) for c in call["pos"]]
+        out, entered = b.call(pos)
+        out = R.normalise(out, defs, call)
+        stats["evaluations"] += 1
+        case = {"spec": prog["spec"], "defs": defs, "calls": [call]}
+        cur_cls = list(call["pos"])
+        cur = progs.dec_outcome(model.run_cases([[10, henc, mms, [[0, R.call_key({"pos": cur_cls, "kw": {}})]]]])[0][0])
+        mo_entered = []
+        for _ in range(len(defs) + 3):
+            if cur[0] != "run":
+                break
+            mo_entered.append(cur[1])
+            d = byid[cur[1]]
+            if not delegates(d):
+                break
+            if d["body"] == "nexto":
+                cur_cls = [b.other_class(cur_cls[0])] + cur_cls[1:]
+            cur = progs.dec_outcome(model.run_cases([[10, henc, mms, [[1, d["id"], R.call_key({"pos": cur_cls, "kw": {}})]]]])[0][0])
+        if len(set(mo_entered)) != len(mo_entered):
+            continue     # the walk can legitimately revisit a method when the arguments change; keep to simple walks
+        if (out, entered) != (cur, mo_entered) and not (out[0] == "run" and cur[0] == "run" and entered == mo_entered):
+            ctx.violation(f"call_next with another class: implementation {(out, entered)} != model {(cur, mo_entered)}", case, kind="correspondence")
+            return
+        stats["other_class_walks"] += 1
+
+
 def run(ctx):
-    stats = {"evaluations": 0, "programs": 0, "oracle_steps": 0, "kf01": 0, "nontrivial": set(), "chain_lengths": collections.Counter()}
+    stats = {"other_class_walks": 0, "evaluations": 0, "programs": 0, "oracle_steps": 0, "kf01": 0, "nontrivial": set(), "chain_lengths": collections.Counter()}
     samples = []
     n = 60 if ctx.quick() else 3000
     for _ in range(n):
@@ -82,6 +126,7 @@ def run(ctx):
         if not prog["calls"]:
             continue
         check(ctx, prog, stats)
+        check_other(ctx, prog, stats)
         if len(samples) < 2:
             samples.append({"defs": prog["defs"], "call": prog["calls"][0]})
         if len(ctx.violations) > 3:
@@ -89,7 +134,7 @@ def run(ctx):
     return {"evaluations": stats["evaluations"], "distinct_nontrivial": len(stats["nontrivial"]),
             "rule": "random programs (as C02, fixed arity) with 70% of the methods delegating through call_next; a case (world, methods, call) is non-trivial when at least one body ran; distinct by content",
             "samples": samples, "programs": stats["programs"], "visit_chain_length_histogram": {str(k): v for k, v in stats["chain_lengths"].items()},
-            "oracle_steps_against_reduced_functions": stats["oracle_steps"], "deviations_attributed_to_KF-01": stats["kf01"],
+            "oracle_steps_against_reduced_functions": stats["oracle_steps"], "walks_with_call_next_on_another_class": stats["other_class_walks"], "deviations_attributed_to_KF-01": stats["kf01"],
             "traces_validated_against_impl": stats["evaluations"]}
 
 
